@@ -335,12 +335,14 @@ class ClientSSM(SSM):
         self.invokeID = apdu.apduInvokeID
         if _debug: ClientSSM._debug("    - invoke ID: %r", self.invokeID)
 
-        # compute the segment count
-        if not apdu.pduData:
-            # always at least one segment
+        # compute the segment count, the limit is on the whole APDU so the
+        # fixed header counts: 4 octets unsegmented, 6 octets for a segment
+        if len(apdu.pduData) + 4 <= self.segmentSize:
+            # fits in one unsegmented request
             self.segmentCount = 1
         else:
             # split into chunks, maybe need one more
+            self.segmentSize -= 6
             self.segmentCount, more = divmod(len(apdu.pduData), self.segmentSize)
             if more:
                 self.segmentCount += 1
@@ -814,12 +816,14 @@ class ServerSSM(SSM):
                 self.segmentSize = min(self.device_info.maxNpduLength, self.maxApduLengthAccepted)
             if _debug: ServerSSM._debug("    - segment size: %r", self.segmentSize)
 
-            # compute the segment count
-            if not apdu.pduData:
-                # always at least one segment
+            # compute the segment count, the limit is on the whole APDU so the
+            # fixed header counts: 3 octets unsegmented, 5 octets for a segment
+            if len(apdu.pduData) + 3 <= self.segmentSize:
+                # fits in one unsegmented ack
                 self.segmentCount = 1
             else:
                 # split into chunks, maybe need one more
+                self.segmentSize -= 5
                 self.segmentCount, more = divmod(len(apdu.pduData), self.segmentSize)
                 if more:
                     self.segmentCount += 1
